@@ -42,14 +42,14 @@ def run(prop, tier, seed, rule, text):
                     others += len(v)
             samples += (d.get("samples") or [])[:1]
         dirfit = 0
-        if prop == "C01":
+        if prop in ("C01", "C03"):
             # "a directory reply carries only the whole entries that fit in the requested byte count":
             # the count / msize sweep of Version.tla's DirFitCases (shared with C13)
             from . import versioncheck
             env, _ = versioncheck.vectors(s, [f for f in vlib.fixed_ids() if f in versioncheck.ALL_DEV])
             t = versioncheck.replay(s, "dirfit", env["VEC_DIRFIT"])
             dirfit = t["cases"]
-            findings += [f[5:] for f in t["findings"] if f.startswith("C01: ")]
+            findings += [f[5:] for f in t["findings"] if f.startswith(prop + ": ")]
             frames += t["cases"]
         for f in findings[:5]:
             p = vlib.save_replay(prop, {"finding": f}, "transp")
